@@ -63,6 +63,7 @@ func execLife(in lifeInput, scratch string) (Case, error) {
 		url = "rosmar://" + filepath.Join(dir, "b")
 	}
 	handles := map[int]*rosmar.Bucket{}
+	dsCache := map[string]sgbucket.DataStore{} // collection objects obtained while their handle was open
 	var feeds []*lifeFeed
 	var mu sync.Mutex
 	docs := 0
@@ -149,8 +150,20 @@ func execLife(in lifeInput, scratch string) (Case, error) {
 							exists = true
 						}
 					}
+					var ds sgbucket.DataStore
+					var e error
 					if exists {
-						if ds, e := h.NamedDataStore(dsName(op.Coll)); e == nil {
+						ds, e = h.NamedDataStore(dsName(op.Coll))
+						if e == nil {
+							dsCache[fmt.Sprintf("%d/%s", op.H, op.Coll)] = ds
+						}
+					} else if cached := dsCache[fmt.Sprintf("%d/%s", op.H, op.Coll)]; cached != nil {
+						// the handle does not answer any more (it was closed): the caller still holds the collection object
+						// it got earlier and starts the feed through it
+						ds, e, exists = cached, nil, true
+					}
+					if exists {
+						if e == nil {
 							f := &lifeFeed{id: op.F, dump: op.Dump, term: make(chan bool), done: make(chan struct{}), rel: make(chan struct{})}
 							fid := fmt.Sprintf("life%d", op.F)
 							if in.SameID {
@@ -189,6 +202,7 @@ func execLife(in lifeInput, scratch string) (Case, error) {
 					for _, n := range names {
 						if n.ScopeName()+"."+n.CollectionName() == op.Coll {
 							if ds, e := h.NamedDataStore(dsName(op.Coll)); e == nil {
+								dsCache[fmt.Sprintf("%d/%s", op.H, op.Coll)] = ds
 								docs++
 								if added, e := ds.(*rosmar.Collection).AddRaw(fmt.Sprintf("doc%d", docs), 0, []byte("x")); e == nil && added {
 									ok = true
@@ -354,7 +368,11 @@ func genLife(r *rand.Rand) lifeInput {
 		switch x := r.Intn(20); {
 		case x < 5:
 			cn := pick(r, colls)
-			add(lifeOp{Kind: "start", F: nf, H: h, Coll: cn, Dump: r.Intn(4) == 0})
+			sh := h
+			if r.Intn(6) == 0 {
+				sh = r.Intn(nh) // possibly a handle that has been closed: the start must fail and leave nothing behind
+			}
+			add(lifeOp{Kind: "start", F: nf, H: sh, Coll: cn, Dump: r.Intn(4) == 0})
 			feedColl[nf] = cn
 			nf++
 		case x < 11:
@@ -373,6 +391,9 @@ func genLife(r *rand.Rand) lifeInput {
 			add(lifeOp{Kind: "close", H: h})
 			open[h] = false
 		case x == 19 && i > 4:
+			if r.Intn(3) == 0 {
+				h = r.Intn(nh) // possibly through a handle that was closed before
+			}
 			add(lifeOp{Kind: "cad", H: h})
 			for _, f := range blocked {
 				add(lifeOp{Kind: "release", F: f})
@@ -383,6 +404,9 @@ func genLife(r *rand.Rand) lifeInput {
 	// end: close every handle (the last close of an on-disk bucket shuts the store down) or delete
 	if r.Intn(2) == 0 {
 		if h := anyOpen(); h >= 0 {
+			if r.Intn(3) == 0 {
+				h = r.Intn(nh)
+			}
 			add(lifeOp{Kind: "cad", H: h})
 		}
 	} else {
